@@ -102,7 +102,11 @@ fn case_t<T: Sc>(rng: &mut Rng, case: u64, out: &mut CaseOut) {
                 }
             }
         }
-        if value_ok {
+        // the comparison with the library's OWN covariance is a consistency relation between two
+        // reported quantities: it needs no well-conditioned normal matrix (its absolute term covers the
+        // cancellation in j^T Cov j), only a covariance inside the range of the scalar type
+        let own_ok = cov.all_finite() && cov_in_range;
+        if value_ok || own_ok {
             let q = (1.0 + pt.w()) / 2.0;
             let t = t_quantile(q, sf.nu as f64);
             let mut worst: f64 = 0.0;
@@ -120,7 +124,7 @@ fn case_t<T: Sc>(rng: &mut Rng, case: u64, out: &mut CaseOut) {
                     worst = worst.max(ratio);
                 }
                 // independent reference: the oracle's own sigma^2 (H^T H)^-1 in f64
-                if let (Some((_, _, kappa)), Some(inv)) = (&scaled, &oracle_inv) {
+                if let (true, Some((_, _, kappa)), Some(inv)) = (value_ok, &scaled, &oracle_inv) {
                     if sigma2.is_finite() && sigma2 > 0.0 {
                         let refo2 = t * t * sigma2 * inv.quad(&ji);
                         let tol_o = (rel + 256.0 * T::EPS * kappa) * refo2 + f64::MIN_POSITIVE;
@@ -144,7 +148,7 @@ fn case_t<T: Sc>(rng: &mut Rng, case: u64, out: &mut CaseOut) {
                 violation(out, stream, case, format!("band radius is not t((1+p)/2; N-M-P)·sqrt(j_i^T Cov j_i) for p={p}, nu={} (ratio {worst:.3e}, oracle t={t})", sf.nu), detail(json!({"p": p, "radius": rad, "t": t})));
                 return;
             }
-            out.count("value_comparisons");
+            out.count(if value_ok { "value_comparisons" } else { "own_covariance_comparisons_on_ill_conditioned_fits" });
         }
         prev = Some(rad);
     }
